@@ -604,6 +604,8 @@ impl State {
     }
 
     fn apply_load_coherence(&mut self, threads: &mut thread::Set, index: usize) {
+        let before = self.stores[index].modification_order;
+
         for i in 0..self.stores.len() {
             // Skip if the is current.
             if index == i {
@@ -620,6 +622,20 @@ impl State {
             if self.stores[i].happens_before < threads.active().causality {
                 let mo = self.stores[i].modification_order;
                 self.stores[index].modification_order.join(&mo);
+            }
+        }
+
+        // The store that is read has just been ordered after every store the
+        // thread had already seen, which moves it later in the modification
+        // order. The stores that were ordered after it must stay ordered
+        // after it: the modification order only ever gains edges.
+        let after = self.stores[index].modification_order;
+
+        if after != before {
+            for i in 0..self.stores.len() {
+                if index != i && before < self.stores[i].modification_order {
+                    self.stores[i].modification_order.join(&after);
+                }
             }
         }
     }
